@@ -35,6 +35,7 @@ SPEC = {
     "modelled": ["stream.Read[T] for the integer/bool/[32|36|38]byte instances, ReadBytes, ReadBytesWithSize, ReadObject, ReadObjectWithSize, PeekSize, ReadCollection",
                  "stream.Write[T], WriteBytes, WriteBytesWithSize, WriteObject, WriteObjectWithSize, WriteCollection over stream.ByteBuffer (Write/Seek with all three whence values, negative targets refused; stream.GoTo/Skip/Offset)",
                  "ReadObjectFromReader, reader programs between GoTo/Skip/Offset over a stream.ByteReader with BytesRead, readers that return io.EOF together with their last bytes, readers that break with another error",
+                 "PeekSize and ReadObjectFromReader against written data (Hive/Proofs/StreamPeekC01.lean: C01_stream_peek_written, C01_stream_peek_then_read_any_chunking, C01_stream_sub_any_chunking; tie: sr requests with peek / ofr generated from writer programs in harness/c01c/peek.go + Go oracle peek-oracle)",
                  "an io.Reader over a fixed byte string = data + list of chunk sizes (0-byte reads allowed, io.EOF at the end); readers that fail with other errors are not modelled",
                  "objectToBytes/objectFromBytes callbacks are the identity (plus typeutils.Uint64FromBytes/ByteArray32FromBytes on the reader side)"],
     "manifest": {
@@ -42,6 +43,5 @@ SPEC = {
         "note": "Trusted: Lean kernel; model Hive/Model/Stream.lean (tie = differential execution); Go's io.ReadFull/binary.Read semantics as modelled.",
         "technique": "Lean 4 proof by induction over writer programs and chunk lists + differential correspondence",
     },
-    "assumptions": ["PeekSize/ReadObjectFromReader theorems: Hive/Proofs/StreamPeekC01.lean (C01_stream_peek_written, C01_stream_peek_then_read_any_chunking, C01_stream_sub_any_chunking); tie: sr requests with peek/ofr in harness/c01c/peek.go + Go oracle peek-oracle",
-                    "collection items written with WriteObject have the fixed length the reader is told (WOp.wf)"],
+    "assumptions": ["collection items written with WriteObject have the fixed length the reader is told (WOp.wf)"],
 }
